@@ -124,11 +124,16 @@ inductive MainPc
   | inSd (sd : Sd)
   deriving Repr, DecidableEq
 
+/-- Where the resolver continues after failing a task whose input failed. -/
+inductive RRet | needAck | poll | stopping (wait : Bool)
+  deriving Repr, DecidableEq
+
 inductive RPc (Val Err : Type)
   | poll
   | gotTask (i : Nat)                    -- dequeued, futures not yet inspected
   | ready (i : Nat)                      -- all inputs done: about to substitute and forward
   | needAck                              -- about to `task_done()` on the outer queue
+  | failing (i : Nat) (e : Err) (ret : RRet)  -- own future set running, about to `set_exception`
   | stopping (wait : Bool)               -- stop message received, draining the wait list
   | inSd (sd : Sd)                       -- running `executor.shutdown(wait)` on the inner executor
   | stopAck | stopJoin | exited
@@ -175,10 +180,10 @@ inductive Label (Val Err : Type)
   | sdPutStop (byRes : Bool) | sdJoinThread (byRes : Bool) | sdJoinThreadRaise (byRes : Bool)
   | sdJoinQueue (byRes : Bool) | sdFinish (byRes : Bool)
   -- resolver
-  | rGet | rDecideReady | rDecidePark | rForward | rFailDep | rAck
+  | rGet | rDecideReady | rDecidePark | rForward | rFailDep | rFailSet | rAck
   | rScanFwd (k : Nat) | rScanFail (k : Nat) | rBeginSd | rStopAck | rJoinExit
   -- dispatcher
-  | dGet | dPrune | dLaunch | dAck | dJoinThread | dJoinThreadRaise | dStopAck | dJoinExit
+  | dGet | dPrune (k : Nat) | dLaunch | dAck | dJoinThread | dJoinThreadRaise | dStopAck | dJoinExit
   -- worker k
   | wBoot (k : Nat) | wGet (k : Nat) | wSrn (k : Nat) | wSend (k : Nat) | wFinish (k : Nat)
   | wFailA (k : Nat) | wFailB (k : Nat) | wFailC (k : Nat)
@@ -402,12 +407,17 @@ def resStep (s : State Val Err) (lbl : Label Val Err) : Option (State Val Err) :
     | .ready i, .rFailDep =>
       match inputsOf s (depsOf cfg i), firstFailure cancelErr s (depsOf cfg i) with
       | none, some e =>
-        let s' := match futOf s i with
-          | .pending => setFut s i (.failed e)
-          | .cancelled => setFut s i .cancelledNotified
-          | _ => s
-        some { s' with res := some .needAck }
+        match futOf s i with
+        | .pending => some { setFut s i .running with res := some (.failing i e .needAck) }
+        | .cancelled => some { setFut s i .cancelledNotified with res := some .needAck }
+        | _ => none
       | _, _ => none
+    | .failing i e ret, .rFailSet =>
+      match futOf s i with
+      | .running =>
+        some { setFut s i (.failed e) with
+               res := some (match ret with | .needAck => .needAck | .poll => .poll | .stopping w => .stopping w) }
+      | _ => none
     | .needAck, .rAck => some { taskDone s .outer with res := some .poll }
     | .poll, .rScanFwd k | .stopping _, .rScanFwd k =>
       match s.waitLst[k]? with
@@ -424,11 +434,11 @@ def resStep (s : State Val Err) (lbl : Label Val Err) : Option (State Val Err) :
         if allDone s (depsOf cfg i) then
           match inputsOf s (depsOf cfg i), firstFailure cancelErr s (depsOf cfg i) with
           | none, some e =>
-            let s' := match futOf s i with
-              | .pending => setFut s i (.failed e)
-              | .cancelled => setFut s i .cancelledNotified
-              | _ => s
-            some { s' with waitLst := s.waitLst.eraseIdx k }
+            let ret : RRet := match pc with | .stopping w => .stopping w | _ => .poll
+            match futOf s i with
+            | .pending => some { setFut s i .running with waitLst := s.waitLst.eraseIdx k, res := some (.failing i e ret) }
+            | .cancelled => some { setFut s i .cancelledNotified with waitLst := s.waitLst.eraseIdx k }
+            | _ => none
           | _, _ => none
         else none
       | none => none
@@ -468,9 +478,12 @@ def dispStep (s : State Val Err) (lbl : Label Val Err) : Option (State Val Err) 
         some { s with qi := { s.qi with items := rest },
                       disp := some (if ts = [] then .stopAck else .stopping ts) }
       | [] => none
-    | .waitSlots _ _ req, .dPrune =>
-      let a' := s.active.filter (fun kv => ! (futOf s kv.1).done)
-      if ¬ fits cfg s.active req ∧ a'.length < s.active.length then some { s with active := a' } else none
+    | .waitSlots _ _ _, .dPrune k =>
+      -- one done entry is dropped from the active table (the real loop does so only while the
+      -- request does not fit; dropping a finished entry earlier changes nothing observable)
+      match s.active[k]? with
+      | some (j, _) => if (futOf s j).done then some { s with active := s.active.eraseIdx k } else none
+      | none => none
     | .waitSlots i vs req, .dLaunch =>
       if fits cfg s.active req then
         let k := s.wk.length
@@ -537,9 +550,9 @@ def step (s : State Val Err) (lbl : Label Val Err) : Option (State Val Err) :=
   | .sdDrainGet true | .sdDrainSkip true | .sdDrainCancel true | .sdDrainDone true
   | .sdDrainEmpty true | .sdPutStop true | .sdJoinThread true | .sdJoinThreadRaise true
   | .sdJoinQueue true | .sdFinish true => resStep cfg cancelErr s lbl
-  | .rGet | .rDecideReady | .rDecidePark | .rForward | .rFailDep | .rAck
+  | .rGet | .rDecideReady | .rDecidePark | .rForward | .rFailDep | .rFailSet | .rAck
   | .rScanFwd _ | .rScanFail _ | .rBeginSd | .rStopAck | .rJoinExit => resStep cfg cancelErr s lbl
-  | .dGet | .dPrune | .dLaunch | .dAck | .dJoinThread | .dJoinThreadRaise | .dStopAck | .dJoinExit =>
+  | .dGet | .dPrune _ | .dLaunch | .dAck | .dJoinThread | .dJoinThreadRaise | .dStopAck | .dJoinExit =>
     dispStep cfg s lbl
   | .wBoot k | .wGet k | .wSrn k | .wSend k | .wFinish k | .wFailA k | .wFailB k | .wFailC k
   | .wProcStop k | .wAck k | .wStopAck k | .wJoinExit k => workerStep eval s k lbl
